@@ -173,8 +173,10 @@ class SingleJobShopGraphEnv(gym.Env):
         self.reward_function = reward_function_config.class_type(
             dispatcher=self.dispatcher, **reward_function_config.kwargs
         )
+        # machine ids range from -1 (no machine specified) to num_machines - 1
         self.action_space = gym.spaces.MultiDiscrete(
-            [self.instance.num_jobs, self.instance.num_machines], start=[0, -1]
+            [self.instance.num_jobs, self.instance.num_machines + 1],
+            start=[0, -1],
         )
         self.observation_space: gym.spaces.Dict = self._get_observation_space()
         self.render_mode = render_mode
